@@ -184,6 +184,9 @@ Section Frame.
       + intros en1 tr1 v1 en2 tr2 HI Hb. specialize (H en1 tr1). rewrite Hb in H. cbn in H.
         rewrite H by assumption. exact HI.
       + unfold bind_e1. now rewrite lookup_bind_notin.
+    - intros x tn es en tr. cbn. intros y Hy. destruct (N.eqb_spec y x) as [->|]; [exfalso; auto | reflexivity].
+    - intros x en tr. cbn. intros y Hy. destruct (N.eqb_spec y x) as [->|]; [exfalso; auto | reflexivity].
+    - intros x e en tr. cbn. intros y Hy. destruct (N.eqb_spec y x) as [->|]; [exfalso; auto | reflexivity].
     - intros en tr. cbn. auto.
     - (* cons *) intros s r Hs Hr en tr. rewrite exec_block_cons. cbn [binders_l].
       specialize (Hs en tr). destruct (exec s en tr) as [en1 tr1| | | | | |]; cbn in *; try exact I.
@@ -344,6 +347,10 @@ Section Alpha.
     - intros lvs ss bc H en tr. cbn [ren_stmt]. rewrite !exec_SWhile, bind_e1_ren.
       rewrite (loop_ren (exec_block strict w fuel ss) _ (bind_e2 w lvs)); auto using bind_e2_ren.
       destruct (loop _ _ _ _ _); cbn; auto. now rewrite bind_opt_ren.
+    - intros x tn es en tr. cbn. rewrite map_map.
+      now rewrite (map_ext (fun x => eval w (ren_env en) (ren_expr r x)) (eval w en)) by (intros; apply eval_ren).
+    - intros x en tr. reflexivity.
+    - intros x e en tr. cbn. now rewrite eval_ren.
     - reflexivity.
     - intros s t Hs Ht en tr. cbn [map]. rewrite !exec_block_cons, Hs.
       destruct (exec strict w fuel s en tr); cbn; auto.
